@@ -1600,6 +1600,16 @@ fn selftest() {
     println!("selftest: {} panics", bad);
 }
 
+/// libFuzzer entry: the input bytes are the entropy tape (little-endian u32 words); same
+/// generator, same oracle as the proptest tiers.
+#[allow(dead_code)]
+pub fn fuzz_bytes(data: &[u8]) {
+    let tape = fv::tape::words_from_bytes(data, 1100);
+    let case = decode(&mut Tape::new(&tape));
+    engine::fuzz_one("C19", &case, &render, &check);
+}
+
+#[allow(dead_code)]
 fn main() -> std::process::ExitCode {
     if std::env::var("C19_SELFTEST").is_ok() {
         selftest();
